@@ -1500,10 +1500,14 @@ class Verifier:
             full.append(z3.And(*suf) if len(suf) > 1 else (suf[0] if suf else z3.BoolVal(True)))
             dec = [c for c in suf if c.get_id() not in s.facts]
             if not dec:
-                # this state differs from the others by no DECISION (a nondeterministic fork: an abstract callee that
-                # may or may not raise, an opaque value that may or may not decode ...): it must not win the merge
+                # this state differs from the others by no DECISION. Either its suffix consists of facts that do tell
+                # it apart (a branch condition that was recorded as a fact): the quantifier-free ones are used as the
+                # selector - exact. Or there is nothing (a nondeterministic fork: an abstract callee that may or may
+                # not raise, an opaque value that may or may not decode ...): it must not win the merge
                 # unconditionally - a fresh, unconstrained selector keeps both outcomes possible
-                dec = [z3.Bool(fresh_name('either'))]
+                dec = [c for c in suf if not _has_quantifier(c)]
+                if not dec:
+                    dec = [z3.Bool(fresh_name('either'))]
             conds.append(z3.And(*dec) if len(dec) > 1 else dec[0])
         out = State()
         out.pc = list(first[:k]) + [z3.Or(*full)]
@@ -1702,6 +1706,18 @@ class Verifier:
 
     local_names = []
     yield_stack = []
+
+
+def _has_quantifier(e, _seen=None):
+    if z3.is_quantifier(e):
+        return True
+    if _seen is None:
+        _seen = set()
+    i = e.get_id()
+    if i in _seen:
+        return False
+    _seen.add(i)
+    return any(_has_quantifier(ch, _seen) for ch in e.children())
 
 
 class _Unbound:
